@@ -60,12 +60,17 @@ def showPairs (l : List (Str × Str)) : String := ",".intercalate (l.map (fun p 
 def showRound (r : Round) : String :=
   s!"{showBool r.request.hasPrev} [{",".intercalate (r.request.input.map showItem)}] exec=[{",".intercalate (r.executed.map (fun p => toString p.2))}] rej=[{showPairs r.rejected}]"
 
-/-- which requests pass the schema gate: 0 none, 1 all, 2 all whose items carry non-empty call ids -/
-def validOf (mode : Nat) (r : Request) : Bool :=
+/-- which requests pass the schema gate (an oracle of the model, observed on the real validator):
+0 none, 1 all, 2 all whose items carry non-empty call ids and whose echoed function_call items
+(stateless history) carry a non-empty name — `noName` lists the call ids of calls without a name -/
+def validOf (mode : Nat) (noName : List Str) (r : Request) : Bool :=
   match mode with
   | 0 => false
   | 1 => true
-  | _ => r.input.all (fun i => match i with | .fcall c => c != 0 | .foutput c => c != 0 | _ => true)
+  | _ => r.input.all (fun i => match i with
+      | .fcall c => c != 0 && !noName.contains c
+      | .foutput c => c != 0
+      | _ => true)
 
 def pResp : P Response := do
   let ok ← bool; let hasId ← bool; let evs ← listOf pEv
@@ -78,7 +83,8 @@ def handleL (rest : String) : String :=
       pure (st, msg, vm, tc, rs)) rest with
   | none => "bad-case"
   | some (st, msg, vm, tc, rs) =>
-    let out := agentLoop { stateless := st, followupMsg := msg, enf := tc.enforcement, valid := validOf vm,
+    let noName := ((rs.map (fun r => collect r.events)).flatten.filter (fun c => c.name == 0)).map (·.callId)
+    let out := agentLoop { stateless := st, followupMsg := msg, enf := tc.enforcement, valid := validOf vm noName,
                            maxCalls := Rip.Gen.Consts.provider_openresponses_DEFAULT_MAX_TOOL_CALLS } rs
     s!"reason={out.reason} " ++ " | ".intercalate (out.rounds.map showRound)
 
